@@ -2013,10 +2013,10 @@ theorem beginBlock_big {s s' : State} (h : Big s) (h1 : s.pool ≠ s.feeAcc) (h2
 /-! ### message handlers: explicit shape of the resulting state -/
 
 theorem applyParam_shape (s : State) (key val : String) :
-    ∃ p ac d, applyParam s key val = { s with p := p, acl := ac, daoOwner := d } := by
+    ∃ p ac d u, applyParam s key val = { s with p := p, acl := ac, daoOwner := d, upgrade := u } := by
   unfold applyParam
   repeat' split
-  all_goals exact ⟨_, _, _, rfl⟩
+  all_goals exact ⟨_, _, _, _, rfl⟩
 
 def defaultVal : Val := { status := 0, jailed := false, tokens := 0, unstake := 0 }
 
@@ -2206,7 +2206,7 @@ theorem handle_unjail_none_of {s : State} {a : Addr}
 /-- messages that do not touch validators -/
 theorem handle_other_shape {s s' : State} {m : Msg} (h : handle s m = some s')
     (hm : (∀ k amt, m ≠ .stake k amt) ∧ (∀ a, m ≠ .unstake a) ∧ (∀ a, m ≠ .unjail a)) :
-    ∃ b sup p ac d, s' = { s with bal := b, supply := sup, p := p, acl := ac, daoOwner := d } := by
+    ∃ b sup p ac d u, s' = { s with bal := b, supply := sup, p := p, acl := ac, daoOwner := d, upgrade := u } := by
   cases m with
   | stake k amt => exact absurd rfl (hm.1 k amt)
   | unstake a => exact absurd rfl (hm.2.1 a)
@@ -2214,7 +2214,7 @@ theorem handle_other_shape {s s' : State} {m : Msg} (h : handle s m = some s')
   | send src dst amt =>
     simp only [handle] at h
     obtain ⟨b, sup, rfl⟩ := send_exact h
-    exact ⟨_, _, _, _, _, rfl⟩
+    exact ⟨_, _, _, _, _, _, rfl⟩
   | changeParam src key val =>
     simp only [handle] at h
     split at h
@@ -2222,9 +2222,9 @@ theorem handle_other_shape {s s' : State} {m : Msg} (h : handle s m = some s')
     · split at h
       · simp at h
       · simp only [Option.some.injEq] at h
-        obtain ⟨p, ac, d, hp⟩ := applyParam_shape s key val
+        obtain ⟨p, ac, d, u, hp⟩ := applyParam_shape s key val
         rw [hp] at h; subst h
-        exact ⟨_, _, _, _, _, rfl⟩
+        exact ⟨_, _, _, _, _, _, rfl⟩
   | daoTransfer src dst amt =>
     simp only [handle] at h
     split at h
@@ -2232,7 +2232,7 @@ theorem handle_other_shape {s s' : State} {m : Msg} (h : handle s m = some s')
     · split at h
       · simp at h
       · obtain ⟨b, sup, rfl⟩ := send_exact h
-        exact ⟨_, _, _, _, _, rfl⟩
+        exact ⟨_, _, _, _, _, _, rfl⟩
   | daoBurn src amt =>
     simp only [handle] at h
     split at h
@@ -2240,7 +2240,7 @@ theorem handle_other_shape {s s' : State} {m : Msg} (h : handle s m = some s')
     · split at h
       · simp at h
       · obtain ⟨b, sup, rfl⟩ := burnFrom_exact h
-        exact ⟨_, _, _, _, _, rfl⟩
+        exact ⟨_, _, _, _, _, _, rfl⟩
   | upgrade src hh ver =>
     simp only [handle] at h
     split at h
@@ -2248,7 +2248,7 @@ theorem handle_other_shape {s s' : State} {m : Msg} (h : handle s m = some s')
     · split at h
       · simp at h
       · simp only [Option.some.injEq] at h; subst h
-        exact ⟨_, _, _, _, _, rfl⟩
+        exact ⟨_, _, _, _, _, _, rfl⟩
 
 /-- growth: the validator set only grows and `prev` is untouched -/
 structure Grow (s s' : State) : Prop where
@@ -2271,7 +2271,7 @@ theorem Evo.grow {s s' : State} (h : Evo s s') : Grow s s' :=
 theorem handle_core {s s' : State} {m : Msg} (hc : Core s) (h : handle s m = some s') :
     Core s' ∧ Grow s s' := by
   by_cases hm : (∀ k amt, m ≠ .stake k amt) ∧ (∀ a, m ≠ .unstake a) ∧ (∀ a, m ≠ .unjail a)
-  · obtain ⟨b, sup, p, ac, d, rfl⟩ := handle_other_shape h hm
+  · obtain ⟨b, sup, p, ac, d, u, rfl⟩ := handle_other_shape h hm
     exact ⟨hc.of_eq rfl rfl rfl, Grow.of_eq rfl rfl⟩
   · cases m with
     | stake k amt =>
